@@ -1,6 +1,6 @@
 (* depth driver (C06): reads the depth harness lines
      <case>\t<impl result>\ttoks=<i,i,...>
-   and prints  <case>\tB=<..> C=<same|..> D=<ok:[r.v;...]|untypable|-> A=<..> AB=<..> G=<finding classes of the tree>\t-
+   and prints  <case>\tB=<..> C=<same|..> D=<ok:[r.v;...]|untypable|-> A=<..> AB=<..> G=<finding classes of the tree> L=<1|0|-: the tree keeps the arity discipline of the inductive theorem>\t-
      B: the worklist model's build (harness format)     C: tree compiler vs B
      D: infer_depths on the model's program: per instruction r.v or _ (unreachable)
      A / AB: the observed run on Simple / Basic replayed on the abstract depth machine:
@@ -163,6 +163,11 @@ let () =
                         (has_reapply_pending, "reapply_pending"); (has_chain_early_else, "chain_early_else");
                         (has_terminator, "terminator") ]))) in
             let tags = if tags = "" then "none" else tags in
+            (* the arity discipline of the inductive static theorem (Proofs/C06/Balanced.v) *)
+            let disc =
+              (match nodes with
+               | [] -> "-"
+               | _ -> (match tree_of nodes root with None -> "-" | Some t -> if balanced t then "1" else "0")) in
             (match b with
              | Err e -> Printf.printf "%s\tB=%s C=%s D=- A=- AB=-\t-\n" case (show_err e) cs
              | Panic _ -> Printf.printf "%s\tB=PANIC C=%s D=- A=- AB=-\t-\n" case cs
@@ -191,5 +196,5 @@ let () =
                             | None -> "-"
                             | Some xs -> (match parse_run xs with None -> "-" | Some (e, tr) -> replay p dm e tr false))
                          | Some xs -> (match parse_run xs with None -> "-" | Some (e, tr) -> replay p dm e tr false)) in
-               Printf.printf "%s\tB=%s C=%s D=%s A=%s AB=%s G=%s\t-\n" case (show_code entry s.instrs s.jumps s.meta) cs ds a ab tags)))
+               Printf.printf "%s\tB=%s C=%s D=%s A=%s AB=%s G=%s L=%s\t-\n" case (show_code entry s.instrs s.jumps s.meta) cs ds a ab tags disc)))
     | _ -> failwith ("bad line " ^ line))
